@@ -156,6 +156,10 @@ def _run(cx, out):
         fx.merge(lib)
     S = shape.Shapes(fx)
     D = decshape.DecShapes(fx, S)
+    # generated decoders must not consult remaining_len() at all (and if they ever do, only for sound rejections: C08 R08.3)
+    from . import c08 as _c08
+    out.rule('R08.3', 'derived code: remaining_len() only for sound rejections (rule of C08 applied to the corpus)')
+    _c08.check_remaining_len_taint(out, fx, floor=False, only=lambda f: f['path'] not in lib.by_path)
     byname = {d['name']: d for d in defs}
     n_enc = n_dec = n_mel = 0
     samples = []
